@@ -263,8 +263,6 @@ def main(prop, tier, replay, njobs):
             infra.append("%s: no DONE line (rc=%s) see %s" % (j.name, r["rc"], r["err"]))
         elif not r["done"]:
             exhaustive = False
-    if hasattr(registry, "post") and prop in getattr(registry, "POST", {}):
-        registry.POST[prop](stats, infra)
     for g in spec.get("guards", []):
         msg = g(stats, outcomes)
         if msg:
@@ -274,6 +272,7 @@ def main(prop, tier, replay, njobs):
     seen = set()
     nviol, nknown = 0, 0
     known_hit = {}
+    percls = {}
     for cls, desc, key, j in viols:
         sig = (cls, key)
         if sig in seen:
@@ -291,8 +290,12 @@ def main(prop, tier, replay, njobs):
         rp = os.path.join(rdir, rid + ".json")
         json.dump({"property": prop, "class": cls, "description": desc, "key": key, "job": j.to_json()},
                   open(rp, "w"), indent=1)
-        if nviol <= 40:
+        percls[cls] = percls.get(cls, 0) + 1
+        if percls[cls] <= 2 and nviol <= 60:
             print("VIOLATION property=%s replay=%s class=%s :: %s" % (prop, rp, cls, desc))
+    for cls, n in sorted(percls.items()):
+        if n > 2:
+            print("  ... class %s: %d violating cases in total (replays under replays/%s/)" % (cls, n, prop))
     for cls, (kf, n) in known_hit.items():
         print("KNOWN-FINDING: property=%s %s (class %s, %d cases this run)" % (prop, kf.get("what", ""), cls, n))
 
